@@ -15,7 +15,7 @@ use serde::{Deserialize, Serialize};
 use crate::{
     core::{CaseResult, Property, RandomPart, Tier},
     props::c20::{tag_name, tag_table},
-    streamlab::parse_all,
+    streamlab::{on_used_connection, parse_all, with_history, OnUsedConnection},
 };
 
 #[derive(Debug, Clone, Serialize, Deserialize, PartialEq)]
@@ -249,7 +249,20 @@ fn compare_queue(i: usize, got: &SongInQueue, want: &ExpSong) -> Result<(), Stri
 }
 
 pub fn check(case: &Case) -> CaseResult {
+    check_variant(case, 0)
+}
+
+pub fn check_used(u: &OnUsedConnection<Case>) -> CaseResult {
+    let mut r = with_history(&u.history, || check_variant(&u.case, u.variant));
+    u.classify(&mut r);
+    r
+}
+
+/// `variant` selects how the decoding command object was built (window, sort key, range, id/position).
+pub fn check_variant(case: &Case, variant: u32) -> CaseResult {
     let mut r = CaseResult::new();
+    let v = variant as usize;
+    let n_listed = case.entries.len();
     let wire = encode(&case.entries);
     let want = expected(&case.entries);
     let frame = match parse_all(&wire) {
@@ -303,8 +316,19 @@ pub fn check(case: &Case) -> CaseResult {
         Decoder::Queue | Decoder::QueueRange | Decoder::QueueSongId => {
             let got = match case.decoder {
                 Decoder::Queue => c::Queue.response(frame),
-                Decoder::QueueRange => c::Queue::range(..).response(frame),
-                _ => c::Queue::song(c::SongId(1)).response(frame),
+                Decoder::QueueRange => match v % 6 {
+                    0 => c::Queue::range(..).response(frame),
+                    1 => c::Queue::range(..c::SongPosition(n_listed / 2)).response(frame),
+                    2 => c::Queue::range(c::SongPosition(1)..).response(frame),
+                    3 => c::Queue::range(c::SongPosition(0)..c::SongPosition(1)).response(frame),
+                    4 => c::QueueRange::range(c::SongPosition(v)..c::SongPosition(v + 1)).response(frame),
+                    _ => c::Queue::range(..c::SongPosition(n_listed)).response(frame),
+                },
+                _ => match v % 3 {
+                    0 => c::Queue::song(c::SongId(1)).response(frame),
+                    1 => c::Queue::song(c::SongPosition(v)).response(frame),
+                    _ => c::QueueRange::song(c::SongId(v as u64)).response(frame),
+                },
             }
             .map_err(|e| format!("well-formed listing rejected: {e}"))?;
             if got.len() != want.len() {
@@ -322,9 +346,23 @@ pub fn check(case: &Case) -> CaseResult {
         }
         Decoder::Find | Decoder::GetPlaylist | Decoder::ListAllIn => {
             let got = match case.decoder {
-                Decoder::Find => c::Find::new(Filter::tag(Tag::Artist, "x")).response(frame),
-                Decoder::GetPlaylist => c::GetPlaylist("p").response(frame),
-                _ => c::ListAllIn::root().response(frame),
+                Decoder::Find => {
+                    let mut f = c::Find::new(Filter::tag(Tag::Artist, "x"));
+                    if (v / 6) % 2 == 1 {
+                        f = f.sort(Tag::Album);
+                    }
+                    f = match v % 6 {
+                        0 => f,
+                        1 => f.window(..n_listed / 2),
+                        2 => f.window(..n_listed),
+                        3 => f.window(1..),
+                        4 => f.window(0..1),
+                        _ => f.window(v..v + 1),
+                    };
+                    f.response(frame)
+                }
+                Decoder::GetPlaylist => c::GetPlaylist(if v % 2 == 0 { "p" } else { "another list" }).response(frame),
+                _ => if v % 2 == 0 { c::ListAllIn::root().response(frame) } else { c::ListAllIn::directory("some/dir").response(frame) },
             }
             .map_err(|e| format!("well-formed listing rejected: {e}"))?;
             if got.len() != want.len() {
@@ -470,10 +508,10 @@ pub fn property(_tier: Tier) -> Property {
         level: "exploration",
         parts: vec![Box::new(RandomPart {
             name: "listings",
-            rule: "proptest: listing of 0-30 entries; songs carry any subset of duration/Time/Range/Pos+Id/Prio/Format/Last-Modified and 0-9 tag lines (named tags, tags unknown to the crate, repeated tags) in shuffled order; database listings (ListAllIn) interleave directory/playlist entries with their own Last-Modified at any position; decoded by Queue, Queue::range, Queue::song(id), CurrentSong (0-1 song), Find, GetPlaylist, ListAllIn and compared field by field (durations at < 1 us tolerance). non-trivial = >=2 songs, an interleaved directory/playlist entry, a repeated tag, or both Time and duration; the check script runs this with and without the chrono feature; distinct by serialised case",
+            rule: "proptest: listing of 0-30 entries; songs carry any subset of duration/Time/Range/Pos+Id/Prio/Format/Last-Modified and 0-9 tag lines (named tags, tags unknown to the crate, repeated tags) in shuffled order; database listings (ListAllIn) interleave directory/playlist entries with their own Last-Modified at any position; decoded by Queue, Queue::range, Queue::song(id), CurrentSong (0-1 song), Find, GetPlaylist, ListAllIn and compared field by field (durations at < 1 us tolerance). Two further dimensions per case: the connection's history (fresh in half of the cases; otherwise 1-1500 distinct field names received earlier, the listing's own field names received earlier, or an earlier line of 70 KiB-4 MiB, all on the same connection) and the parameters of the decoding command object (Find windows shorter/longer than the listing and sort keys, Queue ranges, song by id/position, playlist and directory names). non-trivial = >=2 songs, an interleaved directory/playlist entry, a repeated tag, or both Time and duration; the check script runs this with and without the chrono feature; distinct by serialised case",
             cases: (60_000, 5_000_000),
-            strategy: Box::new(strategy),
-            check: Box::new(check),
+            strategy: Box::new(|t| on_used_connection(strategy(t))),
+            check: Box::new(check_used),
         })],
         assumptions: vec![
             "the listing encoder prints entries the way MPD's SongPrint/TagPrint/TimePrint do (canonical tag names, duration with 3 decimals, RFC 3339 UTC timestamps)",
